@@ -86,6 +86,47 @@ pub fn check_prefilled(case: &CodecCase) -> CaseResult {
     Ok(Outcome::new(plain.len() >= 252 || !pre.is_empty()).label_if(!pre.is_empty(), "bytes_before_the_placeholder"))
 }
 
+/// One encoder's arena handed over to the next (`take_arena`, then
+/// `Encoder::new_from_iovec(OwningIovec::new_from_arena(arena))`) while the first one's output is
+/// still alive, with a generated number of bytes (mostly none) left in the arena's current chunk at
+/// the hand-over: both outputs must be the reference encodings, also after the second encoder wrote.
+pub fn check_handover(case: &CodecCase) -> CaseResult {
+    use hcobs::Encoder;
+    use owning_iovec::OwningIovec;
+    let p = case.payload.bytes();
+    let q: Vec<u8> = p.iter().rev().map(|b| b.wrapping_add(3)).chain([0x68, 0xFE, 0xFD, 0x69]).collect();
+    let mut first = Encoder::new();
+    let cuts = crate::engine::bytespec::resolve_cuts(&case.enc.cuts, p.len(), &codec::plain_interesting(&p));
+    for (i, piece) in crate::engine::bytespec::split_at_cuts(&p, &cuts).into_iter().enumerate() {
+        if i % 2 == 0 {
+            first.encode_copy(piece);
+        } else {
+            first.encode(piece);
+        }
+    }
+    let mut out1 = first.finish();
+    let leave = match case.pre.0.len() % 4 {
+        0 | 1 => 0,
+        2 => 1,
+        _ => case.dec.cuts.len() * 7,
+    };
+    codec::leave_remaining(out1.arena(), leave);
+    let arena = out1.consumer().take_arena();
+    let mut second = Encoder::new_from_iovec(OwningIovec::new_from_arena(arena));
+    second.encode_copy(&q);
+    let got2 = second.finish().flatten().map_err(|_| Fail::new("handover:pending", "placeholder pending after finish".to_string()))?;
+    let got1 = out1.flatten().map_err(|_| Fail::new("handover:pending", "placeholder pending after finish".to_string()))?;
+    let want1 = hcobs_ref::encode(&p, LIMIT_FIRST, LIMIT_LATER);
+    let want2 = hcobs_ref::encode(&q, LIMIT_FIRST, LIMIT_LATER);
+    if got1 != want1 {
+        return Err(Fail::new("handover:first-output", codec::mismatch(&format!("the first encoder's output, read after its arena (with {leave} bytes left in the chunk) went to a second encoder"), &got1, &want1)));
+    }
+    if got2 != want2 {
+        return Err(Fail::new("handover:second-output", codec::mismatch("the second encoder's output", &got2, &want2)));
+    }
+    Ok(Outcome::new(leave == 0 && !p.is_empty()).label_if(leave == 0, "chunk_exactly_full_at_the_hand-over"))
+}
+
 /// The input block is read once into an arena which then also backs the encoder's output
 /// (`Encoder::new_from_iovec(OwningIovec::new_from_arena(arena))`); the pieces encoded are
 /// borrowed *windows* of that block - in any order, overlapping, the same one twice - so the
@@ -357,6 +398,8 @@ pub fn run(ctx: &Ctx, rep: &mut Report) {
     engine::drive(ctx, rep, "prefilled-iovec-with-placeholder", codec::codec_case(false), cases, check_prefilled);
     let cases = ctx.share(ctx.tier.pick(8_000, 200_000));
     engine::drive(ctx, rep, "views-of-a-block-in-its-own-arena", codec::codec_case(false), cases, check_own_arena_views);
+    let cases = ctx.share(ctx.tier.pick(8_000, 200_000));
+    engine::drive(ctx, rep, "arena-handed-over", codec::codec_case(false), cases, check_handover);
     let cases = ctx.share(ctx.tier.pick(80_000, 600_000));
     engine::drive(ctx, rep, "decoder", dec_case(false), cases, check_decoder);
     let cases = ctx.share(ctx.tier.pick(4_000, 40_000));
@@ -369,6 +412,7 @@ fn replay(_ctx: &Ctx, group: &str, case: &Value) -> CaseResult {
         "small-scope-decoder" => hcobs_small::check_small_dec(&parse_case::<SmallDec>(case)?),
         "prefilled-iovec-with-placeholder" => check_prefilled(&parse_case::<CodecCase>(case)?),
         "views-of-a-block-in-its-own-arena" => check_own_arena_views(&parse_case::<CodecCase>(case)?),
+        "arena-handed-over" => check_handover(&parse_case::<CodecCase>(case)?),
         g if g.starts_with("encoder") => check_encoder(&parse_case::<CodecCase>(case)?),
         _ => check_decoder(&parse_case::<DecCase>(case)?),
     }
@@ -377,7 +421,7 @@ fn replay(_ctx: &Ctx, group: &str, case: &Value) -> CaseResult {
 pub fn def() -> PropDef {
     PropDef {
         id: "C07",
-        rule: "Encoder groups: C01's case type; oracle: output equals byte for byte an independently written reference encoder (limits 252/64008 and radix 253 are literals in the reference). encoder-power-of-two-aligned: C02's aligned payloads. prefilled-iovec-with-placeholder: both codecs are started with new_from_iovec on an iovec that holds a few bytes and one of the caller's own placeholders, still pending; pieces go in by encode / encode_copy (decode / decode_copy), finish hands the iovec back, the caller backfills, and the whole must be prefix ++ fill ++ reference output. views-of-a-block-in-its-own-arena: the payload is read once into an arena that then backs the encoder (new_from_iovec(new_from_arena(arena))); up to eight borrowed windows of that block - overlapping, in either order, the whole block again - are encoded, and the output must be the reference encoding of their concatenation. Decoder groups: a case is (optional payload whose canonical encoding is the starting string, a list of mutations - overwrite a chunk-header byte with 253..255 / near-limit / small values, set/delete/insert bytes, truncate, append an extra chunk - or a short arbitrary string, and a feeding plan with cuts and input methods); oracle: accept/reject verdict and decoded bytes equal the reference decoder's, no panic. truncate-every-position enumerates every truncation of the encodings of boundary-length payloads. Non-trivial: the string has >= 2 chunks (reaches a two-byte header), or is rejected for a reason other than being empty. Distinct: hash of the serialised case / by enumeration. Small-scope groups: all strings over {FE,FD,00} up to max_len x 4 limit pairs x cuts x methods (encoder), all strings over {00,01,02,03,05,FC,FD,FE} up to max_len with limits 3/5 x cuts x methods (decoder), through the hcobs::verif hook.",
+        rule: "Encoder groups: C01's case type; oracle: output equals byte for byte an independently written reference encoder (limits 252/64008 and radix 253 are literals in the reference). encoder-power-of-two-aligned: C02's aligned payloads. prefilled-iovec-with-placeholder: both codecs are started with new_from_iovec on an iovec that holds a few bytes and one of the caller's own placeholders, still pending; pieces go in by encode / encode_copy (decode / decode_copy), finish hands the iovec back, the caller backfills, and the whole must be prefix ++ fill ++ reference output. views-of-a-block-in-its-own-arena: the payload is read once into an arena that then backs the encoder (new_from_iovec(new_from_arena(arena))); up to eight borrowed windows of that block - overlapping, in either order, the whole block again - are encoded, and the output must be the reference encoding of their concatenation. arena-handed-over: a finished encoder's arena, with the current chunk exactly full (or 1 / a few bytes left), is taken and given to a second encoder while the first output is still alive; both outputs must be the reference encodings afterwards. Decoder groups: a case is (optional payload whose canonical encoding is the starting string, a list of mutations - overwrite a chunk-header byte with 253..255 / near-limit / small values, set/delete/insert bytes, truncate, append an extra chunk - or a short arbitrary string, and a feeding plan with cuts and input methods); oracle: accept/reject verdict and decoded bytes equal the reference decoder's, no panic. truncate-every-position enumerates every truncation of the encodings of boundary-length payloads. Non-trivial: the string has >= 2 chunks (reaches a two-byte header), or is rejected for a reason other than being empty. Distinct: hash of the serialised case / by enumeration. Small-scope groups: all strings over {FE,FD,00} up to max_len x 4 limit pairs x cuts x methods (encoder), all strings over {00,01,02,03,05,FC,FD,FE} up to max_len with limits 3/5 x cuts x methods (decoder), through the hcobs::verif hook.",
         assumptions: &[
             "the reference codec (refimpl/hcobs_ref.rs) is correct; it is validated against the expected pairs quoted from the crate's unit tests (cargo test in /verif/harness)",
             "decoders are not fed after their first error",
